@@ -9,3 +9,4 @@ import TradingVerif.Props.C01
 #print axioms TV.transact_inv
 #print axioms TV.mark1_inv
 #print axioms TV.runOps_inv
+#print axioms TV.nlv_identity_open
